@@ -186,3 +186,84 @@ func keys(m map[string]bool) []string {
 	}
 	return out
 }
+
+// sharedMaskSequences: the caller keeps ONE update mask object and passes it to several writes (on a Value, on two
+// items of a Collection, on two resources). Some of those writes also carry WithMoreUpdateMask / WithMoreUpdatePaths,
+// which widen the mask of THAT call only. The mask object the caller owns must come out unchanged, and a later write
+// that passes it again touches exactly the fields it names.
+func sharedMaskSequences(r *vk.Run) {
+	n := r.Pick(200, 10000)
+	fields := []string{"default_int32", "default_string", "default_int64", "default_bool"}
+	for i := 0; i < n; i++ {
+		if !r.Mine(i) {
+			continue
+		}
+		rng := r.CaseRand("c05-shared-mask", i)
+		init := func() *tp.TestAllTypes {
+			return &tp.TestAllTypes{DefaultInt32: 1, DefaultString: "s", DefaultInt64: 100, DefaultBool: true}
+		}
+		val := resource.NewValue(resource.WithInitialValue(init()))
+		col := resource.NewCollection(resource.WithInitialRecord("a", init()), resource.WithInitialRecord("b", init()))
+		state := map[string]*tp.TestAllTypes{"value": init(), "a": init(), "b": init()}
+		own := fields[rng.Intn(len(fields))]
+		shared := &fieldmaskpb.FieldMask{Paths: []string{own}}
+		var trace []string
+		steps := rng.Range(2, 6)
+		for s := 0; s < steps; s++ {
+			target := []string{"value", "a", "b"}[rng.Intn(3)]
+			src := &tp.TestAllTypes{DefaultInt32: int32(rng.Range(2, 9)), DefaultString: fmt.Sprintf("w%d", s), DefaultInt64: int64(rng.Range(200, 900)), DefaultBool: s%2 == 0}
+			opts := []resource.WriteOption{resource.WithUpdateMask(shared)}
+			touched := map[string]bool{own: true}
+			how := "mask(shared)"
+			if s == 0 || rng.Chance(1, 3) {
+				extra := fields[rng.Intn(len(fields))]
+				if rng.Bool() {
+					opts = append(opts, resource.WithMoreUpdatePaths(extra))
+				} else {
+					opts = append(opts, resource.WithMoreUpdateMask(&fieldmaskpb.FieldMask{Paths: []string{extra}}))
+				}
+				touched[extra] = true
+				how += "+more(" + extra + ")"
+			}
+			want := proto.Clone(state[target]).(*tp.TestAllTypes)
+			for f := range touched {
+				switch f {
+				case "default_int32":
+					want.DefaultInt32 = src.DefaultInt32
+				case "default_string":
+					want.DefaultString = src.DefaultString
+				case "default_int64":
+					want.DefaultInt64 = src.DefaultInt64
+				case "default_bool":
+					want.DefaultBool = src.DefaultBool
+				}
+			}
+			var got proto.Message
+			var err error
+			if target == "value" {
+				got, err = val.Set(proto.Clone(src), opts...)
+			} else {
+				got, err = col.Update(target, proto.Clone(src), opts...)
+			}
+			trace = append(trace, fmt.Sprintf("write %s on %s with %s -> %v", vk.JSON(src), target, how, err))
+			r.Eval(1)
+			r.Count("shared-mask-writes", 1)
+			replay := map[string]any{"case": i, "trace": trace}
+			if err != nil {
+				r.Violation("C05/sequence/shared-mask/rejected", fmt.Sprintf("a write with a valid mask failed: %v\n%s", err, strings.Join(trace, "\n")), replay)
+				break
+			}
+			state[target] = want
+			if !proto.Equal(got, want) {
+				r.Violation("C05/sequence/shared-mask/outside-mask-changed", fmt.Sprintf("the caller's mask object names %q; after this write the item is %s, the statement gives %s\n%s", own, vk.JSON(got), vk.JSON(want), strings.Join(trace, "\n")), replay)
+				break
+			}
+			if len(shared.Paths) != 1 || shared.Paths[0] != own {
+				r.Violation("C05/sequence/shared-mask/callers-mask-edited", fmt.Sprintf("the caller's mask object was %q and now reads %v\n%s", own, shared.Paths, strings.Join(trace, "\n")), replay)
+				break
+			}
+		}
+		r.Distinct(fmt.Sprintf("shared-mask|%s|%d", own, steps))
+	}
+	r.Require("shared-mask-writes", 200)
+}
